@@ -369,6 +369,13 @@ func (cv CertValidity) toTimeStruct() (config.CertificateValidity, error) {
 		}
 	}
 
+	//neither json (config hash) nor asn.1 can represent years outside 0-9999
+	for _, t := range []time.Time{out.From, out.Until} {
+		if t.Year() < 0 || t.Year() > 9999 {
+			return out, errors.New(`config-v1: validity period reaches outside the years 0000-9999`)
+		}
+	}
+
 	return out, nil
 }
 
